@@ -70,6 +70,7 @@ def main():
         how = HOW.get(n) or old.get(n) or ", ".join(m.get("caught_by") or ["?"])
         if len(how) < 8 and m.get("caught_by"):
             how = ", ".join(m["caught_by"])
+        how = re.sub(r"( \*\(patch re-created on the current tree: .*\)\*)+$", "", how)
         if m.get("rebased"):
             how += " *(patch re-created on the current tree: %s)*" % m["rebased"]
         rows.append("| `%s` | %s | %s |" % (n, m["property"], how))
